@@ -17,7 +17,7 @@ ASSUMPTIONS = ['the detected overlap is whatever find_best_overlap returned (rec
                'end-to-end leg: the harness run_ocr reads one glyph per 8-px column block, so part transcriptions are exact windows']
 N = {'quick': 3000, 'thorough': 150000}
 CLASSES = ['windows', 'noisy_windows', 'unrelated', 'empties', 'single_chars', 'repetitive', 'end_to_end', 'enumeration', 'astral', 'long_windows', 'blank_parts']
-REQUIRED = ['near_equal_error_rate_detections_checked', 'long_windows_without_a_common_character', 'reference_merges_compared', 'long_overlap_detections_checked', 'overlap_detections_checked', 'no_logits_runs', 'merges_checked', 'steps_checked', 'zero_overlap_steps', 'positive_overlap_steps', 'disjoint_or_empty_steps', 'e2e_lines', 'e2e_split_lines']
+REQUIRED = ['e2e_lines_ending_exactly_with_a_window', 'near_equal_error_rate_detections_checked', 'long_windows_without_a_common_character', 'reference_merges_compared', 'long_overlap_detections_checked', 'overlap_detections_checked', 'no_logits_runs', 'merges_checked', 'steps_checked', 'zero_overlap_steps', 'positive_overlap_steps', 'disjoint_or_empty_steps', 'e2e_lines', 'e2e_split_lines']
 ALPHA = 'abcdefg '
 
 
@@ -365,6 +365,17 @@ def check_e2e(case, mon, ctx):
             mon.count('e2e_exact_reconstruction')
     # per-step clauses for every merge the engine performed, from the recorder log (calls for consecutive parts of a line)
     calls = [e for e in ctx.log if 'result' in e]
+    # (round 8) a line wider than the window is recognised in windows that advance by three quarters of the window width until the line is covered: a further window
+    # would hold nothing new, and its text would be stitched on a second time
+    mlw = case['mlw']
+    step = mlw - mlw // 4
+    expected_merges = sum(-(-(img.shape[1] - mlw) // step) for img in lines if img.shape[1] > mlw)
+    mon.count('e2e_window_counts_checked')
+    if any(img.shape[1] > mlw and (img.shape[1] - mlw // 4) % step == 0 for img in lines):
+        mon.count('e2e_lines_ending_exactly_with_a_window')
+    if len(calls) != expected_merges:
+        mon.violation('e2e-begins-and-ends', {'note': 'number of recognition windows: %d merge steps were performed for lines that are covered by windows needing %d' % (len(calls), expected_merges),
+                      'window_width': mlw, 'line_widths': [int(img.shape[1]) for img in lines]}, mechanism='e2e-window-count')
     for e in calls:
         prev, part, o = e['args'][0], e['args'][1], int(e['result'])
         mon.count('e2e_overlap_calls')
